@@ -401,12 +401,16 @@ func H_C05_samekey() {
 }
 
 // H_C05_prefix: DeletePrefix / Clear through one view against TWO writes through the other (a fresh key, then an
-// existing one): the final contents must be those of some linearization (DeletePrefix is atomic).
+// existing one), on the plain store or through the flushkv wrapper: the final contents must be those of some
+// linearization (DeletePrefix is atomic).
 //
 //verif:h prop=C05 preempt=2/3 cover=linearized runs=30000000 timeout=900/900 steps=400000
 func H_C05_prefix() {
 	root := NewMapDB()
 	store := kvstore.KVStore(root)
+	if verifrt.Choose("flush", 2) == 1 {
+		store = flushkv.New(root) // the flush wrapper must keep DeletePrefix / Clear atomic
+	}
 	view, _ := store.WithRealm(append(make([]byte, 0, 8), 1))
 	model := map[string]byte{}
 	store.Set([]byte{1, 2}, []byte{90})
